@@ -102,8 +102,8 @@ def run(chk, replay=None):
             chk.counterexample({'kind': 'thevenin-norton-consistency'},
                                {'input': key_in, 'lcapy': {'Voc': str(Voc), 'Z': str(Z), 'Isc': str(Isc), 'Y': str(Y)},
                                 'spec': 'Voc = Isc Z and Z Y = 1'}, 'Thevenin and Norton models are not equivalent')
-        # (a') the models do not depend on the convention chosen for REPORTING currents (hybrid, active): Isc is the
-        #      current the port delivers into a short from p to m whatever sign convention component currents are shown in
+        # (a') Voc = Isc Z also holds for the models reported under the other documented current sign conventions
+        #      (hybrid, active): the property does not restrict the configuration
         if conv_budget[0] > 0:
             conv_budget[0] -= 1
             for cv in ('hybrid', 'active'):
@@ -121,13 +121,13 @@ def run(chk, replay=None):
                 finally:
                     state.current_sign_convention = 'passive'
                 chk.count('oracle', 'models-under-%s' % cv)
-                if None not in (Isc_cv, Voc_cv, Z_cv) and (Isc_cv != Isc or Voc_cv != Voc or Z_cv != Z or cmul(Isc_cv, Z_cv) != Voc_cv):
+                if None not in (Isc_cv, Voc_cv, Z_cv) and cmul(Isc_cv, Z_cv) != Voc_cv:
                     n_cex += 1
                     chk.counterexample({'kind': 'thevenin-norton-consistency', 'convention': cv},
                                        {'input': dict(key_in, current_sign_convention=cv),
                                         'lcapy': {'Voc': str(Voc_cv), 'Z': str(Z_cv), 'Isc': str(Isc_cv), 'passive': {'Voc': str(Voc), 'Z': str(Z), 'Isc': str(Isc)}},
-                                        'spec': 'Voc = Isc Z, and the models are the same under every current sign convention'},
-                                       'Thevenin/Norton models change with current_sign_convention=%s' % cv)
+                                        'spec': 'Voc = Isc Z under every current sign convention'},
+                                       'Thevenin and Norton models are not equivalent under current_sign_convention=%s' % cv)
                     break
         # (b) no initial-condition symbols/values leak into Z: compare with the IC-free circuit
         try:
@@ -359,6 +359,105 @@ def run(chk, replay=None):
                                {'input': {'oneport': desc, 's': fstr(sp)}, 'lcapy': bad,
                                 'spec': 'the Thevenin / Norton model of a one-port has the Voc, Isc, Z, Y of the one-port'},
                                'one-port Thevenin/Norton model differs from the network it was derived from')
+
+    # ---- transfer functions: transfer / voltage_gain / transimpedance / current_gain / transadmittance are those of the
+    #      network with the independent sources killed and zero initial conditions.  Spec side: the Lean MNA model of the
+    #      killed netlist with a unit test source at port 1 (and a 0 V short at port 2 for the short-circuit quantities).
+    #      Ladder-shaped netlists of six or more elements take Lcapy's ladder shortcut; outputs at interior nodes included.
+    def ladder_net():
+        nsec = rng.randint(3, 5)
+        lines = []
+        cnt = {}
+        def nm(t):
+            cnt[t] = cnt.get(t, 0) + 1
+            return '%s%d' % (t, cnt[t])
+        def val():
+            return fs(Fraction(rng.randint(1, 9), rng.randint(1, 3)))
+        node = 1
+        for i in range(nsec):
+            ty = rng.choice(['R', 'R', 'L', 'C'])
+            lines.append('%s %d %d %s' % (nm(ty), node, node + 1, val()))
+            node += 1
+            ty = rng.choice(['C', 'C', 'R', 'L'])
+            if rng.random() < 0.25:      # a two-element shunt arm
+                mid = 'm%d' % node
+                lines.append('%s %d %s %s' % (nm(ty), node, mid, val()))
+                lines.append('%s %s 0 %s' % (nm('R'), mid, val()))
+            else:
+                lines.append('%s %d 0 %s' % (nm(ty), node, val()))
+        extra = []
+        if rng.random() < 0.4:           # an independent source inside the network (to be killed)
+            extra = ['I1 0 %d step %s' % (rng.randint(2, node), val())]
+        return lines, extra, node
+
+    def killed_lines(lines):
+        out = []
+        for ll in lines:
+            tk = ll.split()
+            if tk[0][0] == 'V':
+                out.append('W %s %s' % (tk[1], tk[2]))
+            elif tk[0][0] == 'I':
+                continue
+            elif tk[0][0] in 'CL' and len(tk) == 5:
+                out.append(' '.join(tk[:4]))
+            else:
+                out.append(ll)
+        return out
+
+    for k in range(10 if quick else 150):
+        sp = Fraction(rng.randint(1, 9), rng.randint(2, 5))
+        if k % 5 == 4:
+            case = gen_netlist.random_case(rng, analysis='s', max_nodes=5)
+            if case['subs'] or any(l.split()[0][0] in 'KW' or l.split()[0][:2] in ('TR', 'AM', 'GY', 'TF') for l in case['lines']):
+                continue
+            lines, extra = case['lines'], []
+            nodes_ = sorted({n_ for l in lines for n_ in l.split()[1:3]} - {'0'})
+            if len(nodes_) < 2:
+                continue
+            p1, p2 = rng.sample(nodes_, 2)
+            family = 'random'
+        else:
+            lines, extra, last = ladder_net()
+            p1, p2 = '1', str(rng.randint(2, last))
+            family = 'ladder-interior' if p2 != str(last) else 'ladder-end'
+        klines = killed_lines(lines)
+        text = '\n'.join(lines + extra)
+        chk.count('transfer-family', family)
+        want = {}
+        r1 = drv.ask1('mna.solve s %s || %s' % (fstr(sp), ' || '.join(klines + ['Vt_ %s 0 step %s' % (p1, fs(sp))])))
+        r2 = drv.ask1('mna.solve s %s || %s' % (fstr(sp), ' || '.join(klines + ['It_ %s 0 step %s' % (p1, fs(sp))])))
+        r3 = drv.ask1('mna.solve s %s || %s' % (fstr(sp), ' || '.join(klines + ['Vt_ %s 0 step %s' % (p1, fs(sp)), 'Vsh_ %s 0 step 0' % p2])))
+        r4 = drv.ask1('mna.solve s %s || %s' % (fstr(sp), ' || '.join(klines + ['It_ %s 0 step %s' % (p1, fs(sp)), 'Vsh_ %s 0 step 0' % p2])))
+        if r1.startswith('ok'):
+            want['transfer'] = want['voltage_gain'] = parse_reply(r1)['V'][p2]
+        if r2.startswith('ok'):
+            want['transimpedance'] = parse_reply(r2)['V'][p2]
+        if r3.startswith('ok'):
+            j = parse_reply(r3)['J']['Vsh_']
+            want['transadmittance'] = (-j[0], -j[1])
+        if r4.startswith('ok'):
+            j = parse_reply(r4)['J']['Vsh_']
+            want['current_gain'] = (-j[0], -j[1])
+        chk.case(('transfer', text, p1, p2, sp), bool(want))
+        if not want:
+            chk.count('model', 'transfer:' + r1[:20])
+            continue
+        try:
+            with common.time_limit(60):
+                cct = lcapy.Circuit(text)
+                got = {q: at(getattr(cct, q)(p1, 0, p2, 0), sp, {}) for q in want}
+        except (Exception, common.TimeLimit) as e:   # noqa
+            chk.count('lcapy-error', 'transfer:' + type(e).__name__ + ':' + str(e)[:40])
+            continue
+        for q in sorted(want):
+            chk.count('oracle', 'transfer-function:' + q)
+            if got[q] is not None and got[q] != want[q]:
+                n_cex += 1
+                chk.counterexample({'kind': 'transfer-function', 'quantity': q, 'family': family},
+                                   {'input': {'netlist': lines + extra, 'port1': [p1, '0'], 'port2': [p2, '0'], 's': fstr(sp)},
+                                    'lcapy': {q: str(got[q])}, 'spec': '%s of the killed network by the Lean MNA model = %s' % (q, want[q])},
+                                   '%s(%s,0,%s,0) is not that of the network with sources killed' % (q, p1, p2))
+                break
 
     chk.coverage['correspondence']['samples_of_disagreement'] = disagreements[:5]
     if broken and n_cex == 0:
